@@ -1,9 +1,160 @@
-// Package c06: check for property C06 (stub until implemented).
+// Package c06: no input from the network can crash a party (FAULT: one deviation per execution, all of
+// them, in worker subprocesses) + every exported verifier/decoder on boundary values (layer 2).
 package c06
 
-import "verif/internal/core"
+import (
+	"fmt"
+	"os"
+	"path/filepath"
+	"runtime"
+	"strings"
+	"time"
 
-// Implemented reports whether this check is built.
-const Implemented = false
+	"verif/internal/core"
+	"verif/internal/fault"
+	"verif/internal/scen"
+)
 
-func Run(r *core.Run) { r.Cap("not implemented") }
+const Implemented = true
+
+func init() {
+	prev := core.WorkerHook
+	core.WorkerHook = func(args []string) int {
+		if len(args) > 0 && args[0] == "fault" {
+			seed := int64(1)
+			fmt.Sscan(os.Getenv("VERIF_SEED"), &seed)
+			for name, mk := range scen.FaultScenarios(seed) {
+				fault.Register(name, mk)
+			}
+			return fault.WorkerMain(args[1:])
+		}
+		if prev != nil {
+			return prev(args)
+		}
+		return 2
+	}
+}
+
+func errClass(t string) string {
+	// strip the variable prefix "task .., party .., round N[, culprits ..]: "
+	if i := strings.LastIndex(t, "]: "); i >= 0 {
+		t = t[i+3:]
+	} else if i := strings.Index(t, ": "); i >= 0 {
+		t = t[i+2:]
+	}
+	if len(t) > 60 {
+		t = t[:60]
+	}
+	return t
+}
+
+func Run(r *core.Run) {
+	keydir := filepath.Join(core.WorkDir(), fmt.Sprintf("keys-%d", os.Getpid()))
+	_ = os.MkdirAll(keydir, 0o755)
+	defer os.RemoveAll(keydir)
+	os.Setenv("VERIF_KEYDIR", keydir)
+	os.Setenv("VERIF_SEED", fmt.Sprint(r.Seed))
+	for name, mk := range scen.FaultScenarios(r.Seed) {
+		fault.Register(name, mk)
+	}
+	type plan struct {
+		scn      string
+		deviator int
+		classes  []string
+		allIdx   bool
+	}
+	full := r.Tier == "thorough"
+	var plans []plan
+	edAll := fault.ValueClasses(false, true)
+	ecAll := fault.ValueClasses(true, full)
+	ecFew := []string{"zero", "one", "plus-one", "q", "N", "N^2", "2^64-1", "double-width"}
+	plans = append(plans,
+		plan{"eddsa-keygen", 1, edAll, true},
+		plan{"eddsa-signing", 1, edAll, true},
+		plan{"eddsa-resharing", 0, edAll, true},  // an old member deviates
+		plan{"eddsa-resharing", 3, edAll, true},  // a new member deviates
+		plan{"ecdsa-signing", 1, ecAll, full},
+	)
+	if full {
+		plans = append(plans,
+			plan{"eddsa-keygen", 0, edAll, true}, plan{"eddsa-keygen", 2, edAll, true},
+			plan{"eddsa-signing", 0, edAll, true}, plan{"eddsa-signing", 2, edAll, true},
+			plan{"ecdsa-signing", 0, ecAll, true},
+			plan{"ecdsa-signing-3", 1, ecFew, false},
+			plan{"ecdsa-keygen", 1, ecAll, true},
+			plan{"ecdsa-resharing", 0, ecAll, true},
+			plan{"ecdsa-resharing", 2, ecAll, true},
+		)
+	} else {
+		plans = append(plans,
+			plan{"ecdsa-keygen", 1, ecFew, false},
+			plan{"ecdsa-resharing", 3, ecFew, false},
+		)
+	}
+	var cases []fault.Case
+	for _, p := range plans {
+		cs, _, err := fault.EnumerateFieldCases(p.scn, p.deviator, p.classes, p.allIdx, false)
+		if err != nil {
+			fmt.Fprintln(os.Stderr, "INFRASTRUCTURE: honest run of", p.scn, "failed:", err)
+			os.Exit(2)
+		}
+		cases = append(cases, cs...)
+	}
+	for i := range cases {
+		cases[i].ID = i
+	}
+	t0 := time.Now()
+	outs := fault.Run(cases, runtime.NumCPU()/2, 10*time.Minute, nil)
+	hist := map[string]int{}
+	for i, o := range outs {
+		c := cases[i]
+		if o.ID < 0 {
+			r.Cap(fmt.Sprintf("case %d (%s %s) was not executed", i, c.Scenario, c.Dev.Sig()))
+			continue
+		}
+		r.Count("l1_executions", 1)
+		cls := "returns/ignored-or-accepted"
+		if len(o.Errs) > 0 {
+			cls = "returns/error"
+		}
+		if !o.Applied {
+			cls = "deviation-point-not-reached"
+		}
+		rec := map[string]interface{}{"scenario": c.Scenario, "deviator": c.Deviator, "deviation": c.Dev, "outcome": o}
+		slot := c.Dev.MsgType + "/" + c.Dev.Field
+		if c.Dev.Field == "" {
+			slot = c.Dev.MsgType + "/<whole message>"
+		}
+		if len(o.Panics) > 0 {
+			cls = "panic(recovered in caller)"
+			site := "unknown"
+			if len(o.PanicSites) > 0 {
+				site = o.PanicSites[0]
+			}
+			r.Violate(fmt.Sprintf("l1/%s/%s@%s:panic", c.Scenario, slot, site), fmt.Sprintf("a party entry point panicked (%s) on %s", o.Panics[0], c.Dev.Sig()), rec)
+		}
+		if o.Crash != "" {
+			cls = "process-" + o.Crash
+			r.Violate(fmt.Sprintf("l1/%s/%s@%s:%s", c.Scenario, slot, o.CrashSite, o.Crash), fmt.Sprintf("the process running the parties died or hung (%s) on %s", o.CrashText, c.Dev.Sig()), rec)
+		}
+		hist[cls]++
+		ec := ""
+		if len(o.Errs) > 0 {
+			ec = errClass(o.Errs[0].Text)
+		}
+		r.Distinct("l1_cases", fmt.Sprintf("%s|%s|%s|%s|%s", c.Scenario, c.Dev.MsgType, c.Dev.Field, cls, ec))
+		if i%211 == 0 {
+			r.Sample(5, map[string]interface{}{"scenario": c.Scenario, "deviator": c.Deviator, "deviation": c.Dev.Sig(), "outcome_class": cls, "first_error": ec})
+		}
+	}
+	r.Set("l1_outcome_histogram", hist)
+	r.Set("l1_wall_s", int(time.Since(t0).Seconds()))
+	r.Set("l1_plans", fmt.Sprint(plans))
+	RunLayer2(r)
+	ev := int(r.Get("l1_executions")) + int(r.Get("l2_calls"))
+	r.Set("evaluations", ev)
+	r.Set("distinct_nontrivial", r.NDistinct("l1_cases")+r.NDistinct("l2_cases"))
+	r.Set("rule", "layer 1: every execution that differs from the honest FIFO run by exactly one deviation of one party: each bytes field / element (first, [middle,] last) of each message type replaced by each value class of the boundary alphabet or removed, list operations, truncated/empty/garbage wire bytes, flipped broadcast flag, duplicate, forged sender index, mirror of another party's message; layer 2: every exported verifier/decoder with one (small arity: two) argument(s) at a boundary value. distinct = distinct (scenario, message type, field, outcome class, error class) tuples")
+	r.Assume("oversized values are at most 2x the nominal width; hang = no outcome within 10 minutes for a case whose honest run takes seconds")
+	r.Assume("crafted multi-message relations (commit to an altered opening, responses summing to zero) are enumerated only where listed in the evidence")
+}
